@@ -93,8 +93,14 @@ theorem aggUpdateRow_progress {O : Oracles} {q : AggStmt} {env : Env} {st : AggS
       simp only [hf] at hpass
       cases he : eval O env f with
       | ok v =>
-        simp only [he, okOf, Option.map_some, Option.some.injEq] at hpass
-        exact ⟨.ok v.truthy, by rw [hpass], by simp only [aggUpdateRow, hf, he]; rfl⟩
+        simp only [he, okOf, Option.bind_some] at hpass
+        cases hc : condHolds v with
+        | ok b' =>
+          simp only [hc, Option.some.injEq] at hpass
+          exact ⟨.ok b', by rw [hpass], by simp only [aggUpdateRow, hf, he, bind, Outcome.bind, hc]; rfl⟩
+        | error k => simp [hc] at hpass
+        | panic k => simp [hc] at hpass
+        | oracleMissing k => simp [hc] at hpass
       | error k => simp [he, okOf] at hpass
       | panic k => simp [he, okOf] at hpass
       | oracleMissing k => simp [he, okOf] at hpass
